@@ -1009,11 +1009,36 @@ class LanguageGraph():
             'Get attack steps for %s asset from '
             'language specification.', asset["name"]
         )
-        if asset['superAsset']:
-            logger.debug('Asset extends another one, fetch the superclass '\
-                'attack steps for it.')
-            attack_steps = self._get_attacks_for_asset_type(asset['superAsset'])
+        # Collect the asset and its ancestors, then fold their declarations
+        # from the root down. (A loop, the inheritance chain can be longer
+        # than the recursion limit allows.)
+        inheritance_chain = [asset]
+        while inheritance_chain[-1]['superAsset']:
+            super_asset_name = inheritance_chain[-1]['superAsset']
+            super_asset = next((asset for asset in self._lang_spec['assets']
+                if asset['name'] == super_asset_name), None)
+            if super_asset is None:
+                logger.error(
+                    'Failed to find asset type %s when looking'
+                    'for attack steps.', super_asset_name
+                )
+                break
+            inheritance_chain.append(super_asset)
 
+        for asset in reversed(inheritance_chain):
+            self._fold_attack_steps(attack_steps, asset)
+
+        return attack_steps
+
+    def _fold_attack_steps(self, attack_steps: dict, asset: dict) -> None:
+        """
+        Apply the attack step declarations of one asset on top of the attack
+        steps inherited from its ancestors.
+
+        Arguments:
+        attack_steps    - the attack steps inherited so far, updated in place
+        asset           - the asset, as found in the language specification
+        """
         for step in asset['attackSteps']:
             if step['name'] not in attack_steps:
                 attack_steps[step['name']] = copy.deepcopy(step)
@@ -1039,8 +1064,6 @@ class LanguageGraph():
                             step['reaches']['stepExpressions'])
                     }
 
-
-        return attack_steps
 
     def _get_associations_for_asset_type(self, asset_type: str) -> list:
         """
